@@ -23,15 +23,59 @@ def configs():
       else:
         out.append({"deco": deco, "host": host, "live_spy": False, "live_trace": False,
                     "drive": "dispatch", "poll": False})
+    # a started active object (deterministic scheduler, round-robin), live output through the writer
+    out.append({"deco": deco, "host": "ao", "live_spy": True, "live_trace": True, "drive": "post", "poll": False})
   return out
 
 
 CONFIGS = configs()
 
 
+def transcript_ao(case, cfg):
+  """The same transcript with the chart hosted on a started ActiveObject."""
+  from miros.event import Event, signals
+  from .. import detsched
+  ao = detsched.install()
+  detsched.reset(ao)
+  files = detsched.miros_files()
+  rt = chartgen.build(case["spec"], decorate=cfg["deco"])
+  sink = []
+
+  def body(s):
+    chart = chartgen.bounded(ao.ActiveObject)(name="vfhost")
+    chart.live_spy, chart.live_trace = cfg["live_spy"], cfg["live_trace"]
+    chart.register_live_spy_callback(sink.append)
+    chart.register_live_trace_callback(sink.append)
+    out = []
+    chart.start_at(rt.fns[case["start"]])
+    s.quiesce()
+    out.append((list(rt.log), chart.state_name))
+    for sig in case["events"]:
+      rt.clear()
+      chart.post_fifo(Event(signal=signals[sig]))
+      s.quiesce()
+      out.append((list(rt.log), chart.state_name))
+    return out
+  s = detsched.Scheduler(schedule=[], step_limit=400000, trace_files=[files["activeobject"]])
+  try:
+    out = detsched.guarded_run(s, body)
+  except (detsched.Deadlock, detsched.StepLimit) as ex:
+    return [("no quiescence", str(ex))]
+  except PropertyViolation as ex:
+    return [("raised", ex.msg)]
+  except HarnessBound as ex:
+    return [("did not terminate", str(ex))]
+  if s.thread_errors:
+    n_, e, tb = s.thread_errors[0]
+    return [("thread died", "%s: %s" % (type(e).__name__, e))]
+  return out
+
+
 def transcript(case, cfg):
   """Run the case under one configuration; returns a list with one entry per phase
   (start, then each event): (action log, resting state name) or an error marker."""
+  if cfg["host"] == "ao":
+    return transcript_ao(case, cfg)
   from miros.event import Event, signals
   rt = chartgen.build(case["spec"], decorate=cfg["deco"])
   chart = hsmcheck.make_host(cfg["host"])
@@ -76,13 +120,13 @@ def cfg_name(c):
 
 class C18(Prop):
   id = "C18"
-  quick_examples = 500
+  quick_examples = 350
   thorough_examples = 6000
   rule = ("Hypothesis-generated chart x start state x event list, each executed under %d "
           "configurations: {no decorator, the spy decorator, some other functools.wraps decorator} x "
           "{plain, instrumented, queued with instrumentation on/off} x {live spy} x {live trace} x "
           "{dispatch directly / post + complete_circuit} x {read-only observers current_state(), "
-          "spy(), trace(), spy_rtc() polled between steps or not} (active-object hosts are exercised by the scheduler-based checks). "
+          "spy(), trace(), spy_rtc() polled between steps or not} and {a started ActiveObject under the deterministic scheduler, with live output through its writer thread}. "
           "Differential oracle: the handlers' action log (entries, exits, inits, user-signal "
           "clauses) and the resting state after start_at and after every event are identical in "
           "every configuration. Non-trivial: the case contains >=1 transition with "
